@@ -16,6 +16,7 @@ import (
 type c19Sig struct{ s *HTTPMessageSignatures }
 
 func (c c19Sig) OnChanged(l zerolog.Logger) { c.s.OnChanged(l) }
+func (c c19Sig) Load() error                { return c.s.init() }
 
 func (c c19Sig) State() c19gen.State {
 	c.s.mut.RLock()
